@@ -177,7 +177,14 @@ def check_values(desc):
     lib = og.potential_operator(fam, op, space, np.asfortranarray(X), k, parameters=par).evaluate(gf)
     ref = closed_form(fam, op, space, c, X, k, order)
     err = og.relerr(lib, ref)
-    if lib.shape != ref.shape or err > TOL:
+    # conditioning: distances d = |x - y| are formed from coordinates of size |x| (relative error eps |x| / d); the kernel e^{ikd}/d and its
+    # derivatives then carry a relative error ~ eps (|x| / d) (1 + |k| d). Matters for a 1e-3-sized grid translated by 100.
+    V_ = np.asarray(g.vertices)
+    cmax = max(float(np.max(np.abs(V_))), float(np.max(np.abs(X))))
+    dmin = max(float(np.min(R)) if np.size(R) else 1.0, 1e-300)
+    kabs = abs(k) if k is not None else 0.0
+    tol_v = TOL + 50 * 2.3e-16 * (cmax / dmin) * (1 + kabs * dmin)
+    if lib.shape != ref.shape or err > tol_v:
         _fail(f"closed_form/{fam}_{op}/{desc['space']['kind']}", f"potential differs from the closed-form kernel sum by {err:.2e} (k={k}, order={order})")
     labels = ["values", f"{fam}_{op}", desc["space"]["kind"]]
     if k is not None and np.imag(k) != 0:
